@@ -526,7 +526,7 @@ def eval_kcliquebin(n, edges, k, symbreak=True, default_flag=False, nx=False):
 
 def eval_ramlb(n, edges, k, s, symbreak=True, default_flag=False, nx=False):
     sg = _fam()[4]
-    variant = ('k==s' if k == s else 'k!=s') + ('' if symbreak else '+nosymbreak') + ('+nx' if nx else '')
+    variant = ('k-equals-s' if k == s else 'k-differs-s') + ('' if symbreak else '+nosymbreak') + ('+nx' if nx else '')
     G = _mk(n, edges, nx)
     try:
         F = sg.RamseyWitnessFormula(G, k, s) if default_flag else sg.RamseyWitnessFormula(G, k, s, symbreak=symbreak)
@@ -690,7 +690,9 @@ def _tasks(ctx):
             for s in range(0, n + 2):
                 for symbreak in (True, False):
                     tasks.append(('ramlb', dict(n=n, edges=edges, k=k, s=s, symbreak=symbreak)))
-    ctx.bounds['ramlb'] = 'all labelled graphs on 0..{} vertices x k,s in 0..n+1 (all pairs, equal and different) x symbreak'.format(nmax)
+                if n <= 3 and k == s:
+                    tasks.append(('ramlb', dict(n=n, edges=edges, k=k, s=s, default_flag=True)))
+    ctx.bounds['ramlb'] = 'all labelled graphs on 0..{} vertices x k,s in 0..n+1 (all pairs, equal and different) x symbreak in (True, False, default)'.format(nmax)
 
     # ---- networkx.Graph inputs (documented as accepted) on every graph with <= 3 vertices
     for n, edges in small:
